@@ -3,11 +3,12 @@ package main
 // Verification-condition generator: go/ssa function -> passive-form SMT definitions + obligations.
 
 import (
-	"regexp"
-	"math/big"
 	"fmt"
 	"go/token"
 	"go/types"
+	"math/big"
+	"os"
+	"regexp"
 	"sort"
 	"strings"
 
@@ -15,35 +16,35 @@ import (
 )
 
 type Obligation struct {
-	Name   string
-	Kind   string // index slice nil typeassert panic div makeslice pre post inv-entry inv-preserved decreases frame frame-call errprop cover ...
-	Func   string
-	Pos    token.Position
-	Guard  string
-	Cond   string
-	Extra  []string // extra declarations/asserts for this obligation only (e.g. skolem constants)
-	Props  []string
-	Expr   string // source text
-	Cover  bool   // a cover query: must be SAT
-	Detail string // how a non-SMT obligation (call-graph check) was decided
-	Models []namedTerm
-	vc     *VC
+	Name     string
+	Kind     string // index slice nil typeassert panic div makeslice pre post inv-entry inv-preserved decreases frame frame-call errprop cover ...
+	Func     string
+	Pos      token.Position
+	Guard    string
+	Cond     string
+	Extra    []string // extra declarations/asserts for this obligation only (e.g. skolem constants)
+	Props    []string
+	Expr     string // source text
+	Cover    bool   // a cover query: must be SAT
+	Detail   string // how a non-SMT obligation (call-graph check) was decided
+	Models   []namedTerm
+	vc       *VC
 	nAsserts int
 }
 
 type namedTerm struct{ Name, Term string }
 
 type VC struct {
-	Func    string
-	Decls   []string
-	Asserts []string
-	Obls    []*Obligation
-	Sorts   *sortReg
-	Notes   []string // over-approximations applied (reported in evidence)
-	Replay  []replayTerm
+	Func           string
+	Decls          []string
+	Asserts        []string
+	Obls           []*Obligation
+	Sorts          *sortReg
+	Notes          []string // over-approximations applied (reported in evidence)
+	Replay         []replayTerm
 	ReplayTemplate string
-	Pkg     string
-	Terms   int
+	Pkg            string
+	Terms          int
 }
 
 // ---- state -------------------------------------------------------------------------------------
@@ -71,11 +72,11 @@ func (s *state) clone() *state {
 type locKind int
 
 const (
-	locField locKind = iota // heap field of a struct object: base ref + field (+ nested path)
-	locElem                 // element of a backing array
-	locLocal                // non-escaping local cell (+ path)
-	locGlobal               // package-level variable (+ path)
-	locCell                 // generic pointer to a non-struct value
+	locField  locKind = iota // heap field of a struct object: base ref + field (+ nested path)
+	locElem                  // element of a backing array
+	locLocal                 // non-escaping local cell (+ path)
+	locGlobal                // package-level variable (+ path)
+	locCell                  // generic pointer to a non-struct value
 )
 
 type loc struct {
@@ -117,50 +118,52 @@ type autoInv struct {
 }
 
 type gen struct {
-	P      *Program
-	fn     *ssa.Function
-	con    *Contract
-	vc     *VC
-	sorts  *sortReg
-	n      int
-	vals   map[ssa.Value]string
-	locs   map[ssa.Value]*loc
-	tuples map[ssa.Value][]string
-	guard  map[*ssa.BasicBlock]string
-	exit   map[*ssa.BasicBlock]*state
-	edge   map[[2]*ssa.BasicBlock]string
-	loops  map[*ssa.BasicBlock]*loopInfo
-	back   map[[2]*ssa.BasicBlock]bool
-	entry  *state
-	declared map[string]bool
-	zeroOff  map[ssa.Value]bool
-	iters    map[*ssa.Range]*iterInfo
-	closures map[ssa.Value]*ssa.MakeClosure
-	defers   []*ssa.Defer
-	oblNames map[string]int
-	top0     string
-	errFlag  string // ghost: some callee returned a non-nil error that has not been handled
-	opts     genOpts
-	params   map[string]ssa.Value
-	curBlock *ssa.BasicBlock
-	curGuard string
-	escaped  map[*ssa.Alloc]bool
-	heapSorts map[string]string
-	heapKinds map[string]string
-	epochVars map[string]string
-	epochs map[string]*epochInfo
-	callSeq  int
-	privParams map[*ssa.Parameter]bool // list parameters the contract declares private (and the body treats so)
-	privViolations []string
-	privLists map[*ssa.Call]bool // lists made by list.New() that never leave this function's hands
-	counted map[string]bool // call names the contract counts with calls(NAME)
-	siteInstr ssa.Instruction        // the call a site assertion is being evaluated at
-	siteOrd   map[ssa.Instruction]int // ordinal of each call among the calls to the same name, in source order
-	roCondTerm string
+	P               *Program
+	fn              *ssa.Function
+	con             *Contract
+	vc              *VC
+	sorts           *sortReg
+	n               int
+	vals            map[ssa.Value]string
+	locs            map[ssa.Value]*loc
+	tuples          map[ssa.Value][]string
+	guard           map[*ssa.BasicBlock]string
+	exit            map[*ssa.BasicBlock]*state
+	edge            map[[2]*ssa.BasicBlock]string
+	loops           map[*ssa.BasicBlock]*loopInfo
+	back            map[[2]*ssa.BasicBlock]bool
+	entry           *state
+	declared        map[string]bool
+	zeroOff         map[ssa.Value]bool
+	iters           map[*ssa.Range]*iterInfo
+	closures        map[ssa.Value]*ssa.MakeClosure
+	defers          []*ssa.Defer
+	oblNames        map[string]int
+	top0            string
+	errFlag         string // ghost: some callee returned a non-nil error that has not been handled
+	opts            genOpts
+	params          map[string]ssa.Value
+	curBlock        *ssa.BasicBlock
+	curGuard        string
+	escaped         map[*ssa.Alloc]bool
+	heapSorts       map[string]string
+	heapKinds       map[string]string
+	epochVars       map[string]string
+	epochs          map[string]*epochInfo
+	callSeq         int
+	privParams      map[*ssa.Parameter]bool // list parameters the contract declares private (and the body treats so)
+	privViolations  []string
+	privLists       map[*ssa.Call]bool      // lists made by list.New() that never leave this function's hands
+	retTag          string                  // appended to the names of the obligations of the return being executed
+	counted         map[string]bool         // call names the contract counts with calls(NAME)
+	resultNamed     map[string]types.Type   // call names whose latest (first) result the contract names with resultOf(NAME)
+	siteInstr       ssa.Instruction         // the call a site assertion is being evaluated at
+	siteOrd         map[ssa.Instruction]int // ordinal of each call among the calls to the same name, in source order
+	roCondTerm      string
 	pendingBindings []closureBinding
-	captured []string            // refs of heap cells captured by closures made in this function (any call may run them)
-	private  map[*ssa.Alloc]bool // heap allocations of this function that unknown code can never reach
-	ghostCalls []ghostCall
+	captured        []string            // refs of heap cells captured by closures made in this function (any call may run them)
+	private         map[*ssa.Alloc]bool // heap allocations of this function that unknown code can never reach
+	ghostCalls      []ghostCall
 }
 
 type ghostCall struct {
@@ -178,11 +181,11 @@ type iterInfo struct {
 }
 
 type genOpts struct {
-	safety     bool // generate panic-freedom obligations
-	functional bool // pre/post/invariants
-	frames     bool // frame obligations on stores and calls
-	docFrame   bool // implicit "modifies \nothing on the document heap" for functions without a modifies clause
-	errprop    bool
+	safety            bool // generate panic-freedom obligations
+	functional        bool // pre/post/invariants
+	frames            bool // frame obligations on stores and calls
+	docFrame          bool // implicit "modifies \nothing on the document heap" for functions without a modifies clause
+	errprop           bool
 	assumeTypeAsserts bool
 }
 
@@ -1147,7 +1150,74 @@ func (P *Program) generate(fn *ssa.Function, con *Contract, opts genOpts) (vc *V
 	for _, b := range order {
 		g.execBlock(b, st)
 	}
+	g.recoveredExit()
 	return g.vc, nil
+}
+
+// recoveredExit: a function that defers a call of recover() also returns when a panic was recovered, from
+// go/ssa's Recover block. With unnamed results that block returns the zero value of every result, whatever the
+// state: the postconditions are checked for that return too (in a state about which nothing is known). With
+// named results the values are whatever the deferred functions left in them; that needs the deferred bodies in a
+// panicking state, which is not modelled: no obligation is generated and the assumption is listed.
+func (g *gen) recoveredExit() {
+	fn := g.fn
+	if os.Getenv("YQV_DEBUG_REC") != "" {
+		fmt.Fprintf(os.Stderr, "recoveredExit %s recover=%v con=%v defers=%d\n", fn, fn.Recover != nil, g.con != nil, len(g.allDefers()))
+	}
+	if fn.Recover == nil || g.con == nil {
+		return
+	}
+	recovers := false
+	for _, d := range g.allDefers() {
+		if mc, ok := d.Call.Value.(*ssa.MakeClosure); ok {
+			if f, ok := mc.Fn.(*ssa.Function); ok {
+				for _, b := range f.Blocks {
+					for _, in := range b.Instrs {
+						if c, ok := in.(*ssa.Call); ok {
+							if bi, ok := c.Call.Value.(*ssa.Builtin); ok && bi.Name() == "recover" {
+								recovers = true
+							}
+						}
+					}
+				}
+			}
+		}
+	}
+	if os.Getenv("YQV_DEBUG_REC") != "" {
+		fmt.Fprintf(os.Stderr, "  recovers=%v block=%v\n", recovers, fn.Recover.Instrs)
+	}
+	if !recovers {
+		return
+	}
+	var ret *ssa.Return
+	for _, in := range fn.Recover.Instrs {
+		if r, ok := in.(*ssa.Return); ok {
+			ret = r
+		}
+	}
+	if ret == nil {
+		return
+	}
+	res := fn.Signature.Results()
+	for i := 0; i < res.Len(); i++ {
+		if res.At(i).Name() != "" && res.At(i).Name() != "_" {
+			g.P.usedAssumption("recovered-panic exit of " + g.vc.Func + ": its named results are set by the deferred function; that exit is not modelled")
+			return
+		}
+	}
+	// unnamed results: when the panic happens before any return statement has run, the result slots still hold
+	// their zero values (a panic inside a deferred call after a return statement stored its values is not modelled)
+	st := g.entry.clone()
+	g.curGuard = "true"
+	g.curBlock = fn.Recover
+	g.guard[fn.Recover] = "true"
+	g.newEpoch(st, func(name, r string) string { return "false" }, true)
+	for i, r := range ret.Results {
+		g.vals[r] = g.sorts.zero(res.At(i).Type())
+	}
+	g.retTag = " after a recovered panic"
+	g.execReturn(ret, st)
+	g.retTag = ""
 }
 
 type genError struct{ msg string }
@@ -1417,6 +1487,26 @@ func describeInstr(in ssa.Instruction) string {
 var _ = strings.Join
 
 var countedCallRe = regexp.MustCompile(`calls\(([A-Za-z0-9_]+)\)`)
+var resultOfRe = regexp.MustCompile(`resultOf\(([A-Za-z0-9_]+)\)`)
+
+// recordResult remembers the first result of the call just executed when the contract names it with
+// resultOf(NAME) (ghost: on a path that made no such call the value is unconstrained).
+func (g *gen) recordResult(n string, v ssa.Value, st *state) {
+	if v == nil {
+		return
+	}
+	t, ok := g.vals[v]
+	if !ok {
+		if tu, ok2 := g.tuples[v]; ok2 && len(tu) > 0 {
+			t = tu[0]
+		} else {
+			return
+		}
+	}
+	h := "GHOST.result." + n
+	g.heapSorts[h] = g.sorts.sortOf(g.resultNamed[n])
+	st.heap[h] = t
+}
 
 // countCall bumps the ghost counter of calls named like this one (see calls(NAME) in the contract language).
 func (g *gen) countCall(c *ssa.CallCommon, st *state) {
@@ -1482,6 +1572,22 @@ func (g *gen) siteAnalysis() {
 		for _, t := range texts {
 			for _, m := range countedCallRe.FindAllStringSubmatch(t, -1) {
 				g.counted[m[1]] = true
+			}
+			for _, m := range resultOfRe.FindAllStringSubmatch(t, -1) {
+				if g.resultNamed == nil {
+					g.resultNamed = map[string]types.Type{}
+				}
+				g.resultNamed[m[1]] = nil
+			}
+		}
+		for _, b := range g.fn.Blocks {
+			for _, in := range b.Instrs {
+				if ci, ok := in.(ssa.CallInstruction); ok {
+					n := calledName(ci.Common())
+					if _, want := g.resultNamed[n]; want && ci.Common().Signature().Results().Len() > 0 {
+						g.resultNamed[n] = ci.Common().Signature().Results().At(0).Type()
+					}
+				}
 			}
 		}
 	}
